@@ -69,6 +69,15 @@ class Spec:
         l, proj = pl
         if not proj:
             return env.get(l, UNKNOWN)
+        # references are transparent (a `ref` copies the abstract value): drop leading derefs
+        base = env.get(l, UNKNOWN)
+        if isinstance(base, tuple) and base and base[0] == "opt":
+            rest = [p for p in proj if p != "*"]
+            if not rest:
+                return base
+            if len(rest) == 2 and rest[0][0] == "d" and rest[0][2] == "Some" and rest[1][0] == "f" and base[1] is not None:
+                return base[1]
+            return UNKNOWN
         # strip derefs of references to a known local: not tracked
         if len(proj) == 2 and proj[0][0] == "d" and proj[1][0] == "f":
             key = (l, proj[0][2], proj[1][1])
@@ -80,6 +89,14 @@ class Spec:
         v = const_value(op)
         if v is not None:
             return v
+        c = op_const(op)
+        if c is not None:
+            # a constant (or promoted reference to a constant) of type Option<bool>
+            extra = c[2] if isinstance(c[2], dict) else {}
+            txt = extra.get("pointee") or (c[1] if isinstance(c[1], str) else "")
+            m = re.search(r"Option::<bool>::(?:Some\((true|false)\)|(None))$", txt)
+            if m:
+                return ("opt", None if m.group(2) else int(m.group(1) == "true"))
         pl = op_place(op)
         if pl is not None:
             return self.place_value(pl, env)
@@ -108,14 +125,29 @@ class Spec:
                 pl = rv[1]
                 if not pl[1] and pl[0] in self.discrs:
                     v = self.discrs[pl[0]]
+                else:
+                    ov = self.place_value(pl, env) if all(p == "*" for p in pl[1]) else UNKNOWN
+                    if isinstance(ov, tuple) and ov and ov[0] == "opt":
+                        v = 0 if ov[1] is None else 1
+            elif k == "ref":
+                v = self.place_value(rv[2], env)
+                if not (isinstance(v, tuple) and v and v[0] == "opt"):
+                    v = UNKNOWN  # only Option<bool> values travel through references
+            elif k == "agg" and isinstance(rv[1], list) and rv[1][0] == "adt" and rv[1][1] == "std::option::Option":
+                if rv[1][2] == "None":
+                    v = ("opt", None)
+                elif rv[1][2] == "Some" and len(rv[2]) == 1:
+                    pv = self.operand_value(rv[2][0], env)
+                    if isinstance(pv, int):
+                        v = ("opt", pv)
             elif k == "bin":
                 a = self.operand_value(rv[2], env)
                 c = self.operand_value(rv[3], env)
-                if a is not None and c is not None and rv[1] in _BIN:
+                if isinstance(a, int) and isinstance(c, int) and rv[1] in _BIN:
                     v = _BIN[rv[1]](a, c)
             elif k == "un" and rv[1] == "Not":
                 a = self.operand_value(rv[2], env)
-                if a is not None:
+                if isinstance(a, int):
                     v = int(not a)
             elif k == "cast":
                 try:
@@ -136,7 +168,35 @@ class Spec:
                 if b in self.call_values:
                     env[dl] = self.call_values[b]
                 else:
-                    env.pop(dl, None)
+                    pv = self.pure_option_call(call, env)
+                    if pv is None:
+                        env.pop(dl, None)
+                    else:
+                        env[dl] = pv
+
+    def pure_option_call(self, call, env):
+        """std functions over Option<bool> whose arguments are known: unwrap_or, unwrap_or_default,
+        is_some, is_none, ==, != (the ways a tri-state flag is turned into a condition)"""
+        vals = [self.operand_value(a, env) for a in call.args]
+
+        def opt(x):
+            return isinstance(x, tuple) and len(x) == 2 and x[0] == "opt"
+
+        n = call.name
+        if re.search(r"Option::<T>::unwrap_or$", n) and len(vals) == 2 and opt(vals[0]) and isinstance(vals[1], int):
+            return vals[1] if vals[0][1] is None else vals[0][1]
+        if re.search(r"Option::<T>::unwrap_or_default$", n) and len(vals) == 1 and opt(vals[0]):
+            return 0 if vals[0][1] is None else vals[0][1]
+        if re.search(r"Option::<T>::is_some$", n) and len(vals) == 1 and opt(vals[0]):
+            return int(vals[0][1] is not None)
+        if re.search(r"Option::<T>::is_none$", n) and len(vals) == 1 and opt(vals[0]):
+            return int(vals[0][1] is None)
+        if re.search(r"PartialEq(<[^()]*>)?>?::(eq|ne)$", n) and len(vals) == 2 and opt(vals[0]) and opt(vals[1]):
+            e = vals[0][1] == vals[1][1]
+            return int(e if n.endswith("eq") else not e)
+        if re.search(r"Option::<T>::(copied|cloned|as_ref)$|Clone>?::clone$", n) and len(vals) == 1 and opt(vals[0]):
+            return vals[0]
+        return None
 
     def run(self, start):
         fn = self.fn
@@ -161,7 +221,7 @@ class Spec:
             nxt = list(dict.fromkeys(succs[b]))
             if t[0] == "switch":
                 v = self.operand_value(t[1], env)
-                if v is not None:
+                if isinstance(v, int):
                     tgt = None
                     for val, tb in t[2]:
                         if int(val) == v:
